@@ -95,6 +95,21 @@ def scale(a, n):
     return norm(Lin({k: v * n for k, v in a.m.items()}, a.c * n))
 
 
+def mul(a, b):
+    """product of two linear terms, distributed: sum of ('mul', x, y) atoms (x, y atoms in canonical order) - so (k + 1) * p == k * p + p syntactically"""
+    a, b = as_lin(a), as_lin(b)
+    out = const(a.c * b.c)
+    for x, cx in a.m.items():
+        out = add(out, scale(x, cx * b.c))
+    for y, cy in b.m.items():
+        out = add(out, scale(y, cy * a.c))
+    for x, cx in a.m.items():
+        for y, cy in b.m.items():
+            u, v = sorted([x, y], key=repr)
+            out = add(out, scale(("mul", u, v), cx * cy))
+    return out
+
+
 def is_const(v):
     return isinstance(v, Lin) and v.is_const()
 
@@ -350,10 +365,17 @@ class Evaluator:
                     if not preds:
                         continue
                     env, heap, ver = self._join(bi, [out[p] for p in preds], frame, preds)
-                for l in widen.get(bi, ()):
+                for l in sorted(widen.get(bi, ()), key=repr):
                     if l == "#heap":
                         heap = {}
                         ver = (("w", frame_site(chain, body, bi)),) * 2
+                    elif isinstance(l, tuple):
+                        # a struct-valued loop variable of which only some fields change around the loop (a Range iterator): widen those fields only
+                        base = env.get(l[0])
+                        if tag(base) == "struct":
+                            env[l[0]] = self._set_path(base, l[1], ("phi", frame_site(chain, body, bi), (l[0],) + tuple(l[1])))
+                        else:
+                            env[l[0]] = ("phi", frame_site(chain, body, bi), l[0])
                     else:
                         env[l] = ("phi", frame_site(chain, body, bi), l)
                 res.env_in[bi] = dict(env)
@@ -380,8 +402,15 @@ class Evaluator:
                             continue
                         a, b = envu.get(l), envv.get(l)
                         if a is not None and b is not None and a != b:
-                            w.add(l)
-                            changed = True
+                            paths = _struct_diff(a, b)
+                            if paths is None or any(not p_ for p_ in paths):
+                                w.add(l)
+                                changed = True
+                            else:
+                                for p_ in paths:
+                                    if (l, p_) not in w:
+                                        w.add((l, p_))
+                                        changed = True
                     if "#heap" not in w:
                         hv = out_heap_in(out, body, v, pos)
                         if hv is not None and (heapu != hv[0] or veru != hv[1]):
@@ -659,6 +688,8 @@ class Evaluator:
             return self._payload(x[2][0], "Ok" if True else "Some", i)
         if tag(x) == "filter" and vn == "Some":
             return self._payload(x[1], vn, i)
+        if tag(x) == "rangenext" and vn == "Some" and i == 0:
+            return x[1]
         if tag(x) == "variant" and x[2] == vn and isinstance(i, int) and i < len(x[3]):
             return x[3][i]
         if tag(x) == "call" and x[1].endswith("checked_sub") and vn == "Some" and i == 0:
@@ -917,6 +948,10 @@ class Evaluator:
             r = sub(a, b)
         elif base == "Mul" and num and (is_const(a) or is_const(b)):
             r = scale(b, a.c) if is_const(a) else scale(a, b.c)
+        elif base == "Mul" and num and len(as_lin(a).m) <= 3 and len(as_lin(b).m) <= 3:
+            r = mul(a, b)
+        elif base in ("Div", "Rem") and num and not (is_const(a) and is_const(b)):
+            r = ("div" if base == "Div" else "rem", a, b)
         elif base in ("Eq", "Ne", "Lt", "Le", "Gt", "Ge"):
             if is_const(a) and is_const(b):
                 r = const(int({"Eq": a.c == b.c, "Ne": a.c != b.c, "Lt": a.c < b.c, "Le": a.c <= b.c, "Gt": a.c > b.c, "Ge": a.c >= b.c}[base]))
@@ -1266,6 +1301,39 @@ class Evaluator:
             if tag(x) == "call" and x[1].endswith("checked_sub"):
                 return ("satsub", x[2][0], x[2][1])
             return ("call", c, tuple(args))
+        if re.search(r"IntoIterator>?::into_iter$", c) and len(args) == 1 and tag(args[0]) == "struct" and args[0][1].endswith("ops::Range"):
+            return args[0]      # a Range is its own iterator
+        if re.search(r"iter::Iterator for std::ops::Range<\w+>>::next$|iter::Iterator for core::ops::Range<\w+>>::next$", c) and len(args) == 1:
+            # for i in a..b: next() yields the current start while start < end and advances it by one
+            r = args[0]
+            if tag(r) == "ref" and r[1][0] == "loc":
+                tgt = r[1]
+                fr = self.frames[tgt[1]]
+                cur = fr.env.get(tgt[2])
+                rng = self._walk_value(cur, tgt[3]) if cur is not None else None
+                if tag(rng) == "struct" and struct_get(rng, "start") is not None and struct_get(rng, "end") is not None:
+                    st_, en_ = struct_get(rng, "start"), struct_get(rng, "end")
+                    if _numeric(st_) and _numeric(en_):
+                        fr.env[tgt[2]] = self._set_path(cur, tgt[3], struct_set(rng, "start", add(st_, const(1))))
+                        entry["range_next"] = (st_, en_)
+                        return ("rangenext", st_, en_)
+            self._invalidate(args)
+            return ("call", c, tuple(args))
+        if re.search(r"slice::<impl \[T\]>::chunks$", c) and len(args) == 2:
+            return ("chunks", args[0], args[1])
+        if re.search(r"IntoIterator>?::into_iter$", c) and len(args) == 1 and tag(args[0]) == "chunks":
+            return args[0]
+        if re.search(r"(iter::Iterator for (std|core)::slice::Chunks<.*>>::next|<(std|core)::slice::Chunks<.*> as (std|core)::iter::Iterator>::next)$", c) and len(args) == 1:
+            r = self._deref_val(args[0]) if tag(args[0]) == "ref" else args[0]
+            if tag(args[0]) == "ref" and args[0][1][0] == "loc":
+                tgt = args[0][1]
+                cur = self.frames[tgt[1]].env.get(tgt[2])
+                r = self._walk_value(cur, tgt[3]) if cur is not None else None
+            if tag(r) == "chunks":
+                # the contract of slice::chunks: consecutive, gap-free sub-slices of r[1] in order, None once it is exhausted
+                return ("chunksnext", r[1], r[2])
+            self._invalidate(args)
+            return ("call", c, tuple(args))
         if re.search(r"Option::<.*>::filter$", c) and len(args) == 2:
             # opt.filter(p): Some(x) iff opt is Some(x) and p(&x); represented as ("filter", opt, p(&x)) - its discriminant carries both facts
             recv, fval = args[0], self._deref_val(args[1])
@@ -1566,6 +1634,24 @@ def out_heap_in(out, body, v, pos):
     return (h, ver)
 
 
+def _struct_diff(a, b, depth=0):
+    """field paths at which two values of the same struct type differ; None when they are not comparable field by field"""
+    if a == b:
+        return []
+    if depth < 4 and tag(a) == "struct" and tag(b) == "struct" and a[1] == b[1] and a[1] != "?partial":
+        fa, fb = dict(a[2]), dict(b[2])
+        if set(fa) == set(fb):
+            out = []
+            for k in sorted(fa, key=repr):
+                sub_ = _struct_diff(fa[k], fb[k], depth + 1)
+                if sub_ is None:
+                    out.append((k,))
+                else:
+                    out.extend((k,) + p for p in sub_)
+            return out
+    return None if depth == 0 else [()]
+
+
 def _join_ver(a, b, j, diff=()):
     av = a[0] if a[0] == b[0] and not any(tag(k[0]) != "param" for k in diff) else j
     pv = a[1] if a[1] == b[1] and not any(tag(k[0]) == "param" for k in diff) else j
@@ -1632,6 +1718,11 @@ def implied_facts(guards):
         elif t == "discr":
             facts.add(("discr", cond[1], rel))
             x = cond[1]
+            if tag(x) == "rangenext":
+                if rel in (("eq", 1), ("ne", (0,))):
+                    facts.add(("cmp", "Lt", x[1], x[2]))
+                elif rel in (("eq", 0), ("ne", (1,))):
+                    facts.add(("cmp", "Ge", x[1], x[2]))
             if tag(x) == "filter" and rel in (("eq", 1), ("ne", (0,))):
                 # Some(..) came out of the filter: the receiver was Some and the predicate held
                 facts |= implied_facts([(("discr", x[1]), ("eq", 1)), (x[2], ("eq", 1))])
